@@ -1415,6 +1415,9 @@ func (st *Runtime) evaluateArgs(fnType reflect.Type, args CallArgs, pipedArg *re
 
 	if !args.HasPipeSlot && pipedArg != nil {
 		in := fnType.In(slot)
+		if isVariadic && numArgsRequired == 0 {
+			in = in.Elem() // the piped value is the first of the variadic arguments
+		}
 		if !(*pipedArg).IsValid() {
 			return nil, fmt.Errorf("piped first argument for %s is not a valid value", fnType)
 		}
